@@ -9,7 +9,7 @@ V=/verif; W=/tmp/nm; rm -rf $W; mkdir -p $W
 git -C /repo worktree prune
 git -C /repo worktree add -q --detach $W/wt HEAD || exit 2
 seeds=("$@"); [ ${#seeds[@]} = 0 ] && seeds=($V/neutral/*/)
-props=${PROPS:-$($V/bin/rcheck -list)}
+props=${PROPS:-$(${RCHECK:-$V/bin/rcheck} -list)}
 for s in "${seeds[@]}"; do
   s=$(cd ${s%/} && pwd); name=$(basename $s)
   (cd $W/wt && git checkout -q -- . && git clean -fdq)
@@ -17,7 +17,7 @@ for s in "${seeds[@]}"; do
   if ! (cd $W/wt && go build ./... >/dev/null 2>&1); then echo "$name: DOES NOT BUILD"; continue; fi
   rm -rf $W/out; mkdir -p $W/out
   for p in $props; do
-    ( mkdir -p $W/out/$p; cp $V/known_findings.json $W/out/$p/; $V/bin/rcheck -prop $p -repo $W/wt -out $W/out/$p > $W/out/$p.log 2>&1; echo $? > $W/out/$p.rc ) &
+    ( mkdir -p $W/out/$p; cp $V/known_findings.json $W/out/$p/; ${RCHECK:-$V/bin/rcheck} -prop $p -repo $W/wt -out $W/out/$p > $W/out/$p.log 2>&1; echo $? > $W/out/$p.rc ) &
     while [ $(jobs -r | wc -l) -ge 10 ]; do sleep 0.2; done
   done
   wait
